@@ -71,6 +71,21 @@ Theorem C05_clip_corner_reach : forall c s ml,
 Proof. exact clip_corner_reach. Qed.
 
 (* non-vacuity *)
+(* the corners of a clipped miter lie on the sides between the side point n0 = (a, b) and the miter tip T = (p, q):
+   a point i = (x, y) of the side line {v : v.n0 = n0.n0} that is cut off by a clip line not beyond the tip
+   (i.T <= T.T) and not before the side point (n0.T <= i.T, true whenever the miter limit is at least 1) is never
+   farther from the join than the tip, provided the join is not straight (T is not n0).  This is the bound the
+   repaired get_clip_intersections enforces when rounding makes the intersection meaningless. *)
+Theorem C05_clip_corner_within_tip : forall a b p q x y : Q,
+  0 < a * a + b * b ->
+  p * a + q * b == a * a + b * b ->
+  x * a + y * b == a * a + b * b ->
+  ~ (a * q - b * p == 0) ->
+  x * p + y * q <= p * p + q * q ->
+  a * p + b * q <= x * p + y * q ->
+  x * x + y * y <= p * p + q * q.
+Proof. exact clip_corner_within_tip. Qed.
+
 Example C05_tangent_corner_example :
   tangent_corner (3#5, 4#5) (4#5, 3#5) 1 (5#7, 5#7) /\ ~ sdot (3#5, 4#5) (4#5, 3#5) * sdot (3#5, 4#5) (4#5, 3#5) == 1.
 Proof. exact tangent_corner_example. Qed.
@@ -95,3 +110,4 @@ Print Assumptions C05_tangent_corner.
 Print Assumptions C05_right_angle_corner.
 Print Assumptions C05_miter_tip_within_limit.
 Print Assumptions C05_clip_corner_reach.
+Print Assumptions C05_clip_corner_within_tip.
